@@ -9,6 +9,8 @@ import sys
 
 def run(prop: str, tier: str, repo: str | None = None, write_evidence: bool = True, quiet: bool = False,
         selftest: bool = True) -> int:
+    import time
+    t0 = time.time()
     from .index import AnalysisError, Index
     from .report import run_property
     try:
@@ -30,7 +32,7 @@ def run(prop: str, tier: str, repo: str | None = None, write_evidence: bool = Tr
     except AnalysisError as e:
         print(f'ANALYSIS-ERROR property={prop} {e}')
         return 2
-    return run_property(prop, rules, tier, idx=idx, write_evidence=write_evidence, quiet=quiet, extra=extra)
+    return run_property(prop, rules, tier, idx=idx, write_evidence=write_evidence, quiet=quiet, extra=extra, t0=t0)
 
 
 def main(argv=None) -> int:
